@@ -42,12 +42,14 @@ Definition nosecs_from_contexts (m : nosec_map) (ctx_lr : list Z) (res_lineno : 
   | Some b, Some c => Some (union_ids b c)
   end.
 
+Inductive status := Kept | Bare | Specific.
 Record tstate := TState {
   ts_results : list finding;          (* in append order *)
   ts_nosec : Z; ts_skipped : Z;
-  ts_errors : list (pstr * exn)       (* (test name, exception class) per logged internal error *)
+  ts_errors : list (pstr * exn);      (* (test name, exception class) per logged internal error *)
+  ts_all : list (finding * status)    (* ghost: every finding a check produced, with what became of it *)
 }.
-Definition ts_init : tstate := TState [] 0 0 [].
+Definition ts_init : tstate := TState [] 0 0 [] [].
 
 Definition scores := (list Z * list Z)%type.   (* SEVERITY, CONFIDENCE slots *)
 Definition zero_scores (K : consts) : scores :=
@@ -87,23 +89,26 @@ Definition run_one (K : consts) (m : nosec_map) (c : ctx) (t : test) (acc : tsta
   : tstate * scores :=
   let '(st, sc) := acc in
   match t_fn t c with
-  | Raise e => (TState (ts_results st) (ts_nosec st) (ts_skipped st) (ts_errors st ++ [(t_name t, e)]), sc)
+  | Raise e => (TState (ts_results st) (ts_nosec st) (ts_skipped st) (ts_errors st ++ [(t_name t, e)]) (ts_all st), sc)
   | Ok None => acc
   | Ok (Some r) =>
       let ns := nosecs_from_contexts m (c_linerange c) (ri_lineno r) in
       let f := fill_defaults t c r in
       let keep :=
         match score_one K f sc with
-        | Some sc' => (TState (ts_results st ++ [f]) (ts_nosec st) (ts_skipped st) (ts_errors st), sc')
+        | Some sc' => (TState (ts_results st ++ [f]) (ts_nosec st) (ts_skipped st) (ts_errors st)
+                              (ts_all st ++ [(f, Kept)]), sc')
         | None => (TState (ts_results st ++ [f]) (ts_nosec st) (ts_skipped st)
-                          (ts_errors st ++ [(t_name t, ValueError)]), sc)
+                          (ts_errors st ++ [(t_name t, ValueError)]) (ts_all st ++ [(f, Kept)]), sc)
         end in
       match ns with
       | None => keep
-      | Some [] => (TState (ts_results st) (ts_nosec st + 1) (ts_skipped st) (ts_errors st), sc)
+      | Some [] => (TState (ts_results st) (ts_nosec st + 1) (ts_skipped st) (ts_errors st)
+                           (ts_all st ++ [(f, Bare)]), sc)
       | Some ids =>
           if mem_pstr (f_test_id f) ids
-          then (TState (ts_results st) (ts_nosec st) (ts_skipped st + 1) (ts_errors st), sc)
+          then (TState (ts_results st) (ts_nosec st) (ts_skipped st + 1) (ts_errors st)
+                       (ts_all st ++ [(f, Specific)]), sc)
           else keep
       end
   end.
